@@ -608,4 +608,135 @@ theorem write_ok_rest (orc : Oracle) (fuel i : Nat) (data : Bytes) (e0 : Nat := 
   simp only [List.length_append] at h2
   exact List.eq_nil_of_length_eq_zero (by omega)
 
+/-! ### Inserting an EINTR answer -/
+
+/-- the oracle with answer `a` inserted before call `k` -/
+def insertAt (orc : Oracle) (k : Nat) (a : Ans) : Oracle :=
+  fun j => if j < k then orc j else if j = k then a else orc (j - 1)
+
+/-- an oracle shifted by one call gives the same run, one call later -/
+theorem xfer_shift (zero : Nat → Res) (posn : Bool) (orc orc' : Oracle) : ∀ fuel i src amount off e0,
+    (∀ j, i ≤ j → orc' (j + 1) = orc j) →
+    (xfer zero posn orc' fuel (i + 1) src amount off e0).res = (xfer zero posn orc fuel i src amount off e0).res ∧
+    (xfer zero posn orc' fuel (i + 1) src amount off e0).moved = (xfer zero posn orc fuel i src amount off e0).moved ∧
+    (xfer zero posn orc' fuel (i + 1) src amount off e0).rest = (xfer zero posn orc fuel i src amount off e0).rest ∧
+    (xfer zero posn orc' fuel (i + 1) src amount off e0).log = (xfer zero posn orc fuel i src amount off e0).log := by
+  intro fuel
+  induction fuel with
+  | zero => intro i src amount off e0 _; cases amount <;> simp [xfer]
+  | succ f ih =>
+    intro i src amount off e0 h
+    cases amount with
+    | zero => simp [xfer]
+    | succ a =>
+      simp only [xfer, h i (Nat.le_refl i)]
+      split
+      · have := ih (i + 1) src (a + 1) off kEINTR (fun j hj => h j (by omega))
+        simp only [cons_res, cons_moved, cons_rest, cons_log, this, and_self]
+      · simp
+      · simp
+      · rename_i r _
+        have := ih (i + 1) (src.drop (r + 1)) (a + 1 - (r + 1)) (if posn then off + (r + 1) else off) 0
+          (fun j hj => h j (by omega))
+        simp only [cons_res, cons_moved, cons_rest, cons_log, this, and_self]
+
+/-- the errno state `e0` matters only through a zero return of the very next call -/
+theorem xfer_e0_first (zero : Nat → Res) (posn : Bool) (orc : Oracle) (fuel i : Nat) (src : Bytes)
+    (amount off e0 e0' : Nat) :
+    (xfer zero posn orc fuel i src amount off e0').moved = (xfer zero posn orc fuel i src amount off e0).moved ∧
+    (xfer zero posn orc fuel i src amount off e0').rest = (xfer zero posn orc fuel i src amount off e0).rest ∧
+    ((xfer zero posn orc fuel i src amount off e0').res = (xfer zero posn orc fuel i src amount off e0).res ∨
+     ((xfer zero posn orc fuel i src amount off e0).res = zero e0 ∧
+      (xfer zero posn orc fuel i src amount off e0').res = zero e0')) := by
+  cases fuel with
+  | zero => cases amount <;> simp [xfer]
+  | succ f =>
+    cases amount with
+    | zero => simp [xfer]
+    | succ a =>
+      simp only [xfer]
+      split <;> simp
+
+theorem xfer_succ (zero : Nat → Res) (posn : Bool) (orc : Oracle) (f i : Nat) (src : Bytes) (a off e0 : Nat) :
+    xfer zero posn orc (f + 1) i src (a + 1) off e0 =
+      match (orc i).ret (a + 1) src.length with
+      | .eintr => (xfer zero posn orc f (i+1) src (a + 1) off kEINTR).cons { req := a + 1, off := off } []
+      | .err e => ⟨.errno e, i+1, [], src, [{ req := a + 1, off := off }]⟩
+      | .count 0 => ⟨zero e0, i+1, [], src, [{ req := a + 1, off := off }]⟩
+      | .count (r+1) =>
+        (xfer zero posn orc f (i+1) (src.drop (r+1)) (a + 1 - (r+1))
+          (if posn then off + (r+1) else off) 0).cons { req := a + 1, off := off } (src.take (r+1)) := by
+  rw [xfer]
+
+/-- **EINTR insertion**: inserting one EINTR answer before any call `k ≥ i` (and granting one more
+unit of fuel) changes neither the bytes moved nor the bytes left, and changes the result only in
+the one case the real code exhibits: when the call right after the inserted EINTR returns 0, the
+exception carries `zero EINTR` instead of `zero e` (for `WriteOrThrow`: errno 4 instead of the
+errno state `e`; for the other loops `zero` is constant and nothing changes). -/
+theorem xfer_insert_eintr (zero : Nat → Res) (posn : Bool) (orc : Oracle) (k : Nat) :
+    ∀ fuel i src amount off e0, i ≤ k →
+    (xfer zero posn orc fuel i src amount off e0).res ≠ .fuel →
+    (xfer zero posn (insertAt orc k .eintr) (fuel + 1) i src amount off e0).moved =
+      (xfer zero posn orc fuel i src amount off e0).moved ∧
+    (xfer zero posn (insertAt orc k .eintr) (fuel + 1) i src amount off e0).rest =
+      (xfer zero posn orc fuel i src amount off e0).rest ∧
+    ((xfer zero posn (insertAt orc k .eintr) (fuel + 1) i src amount off e0).res =
+        (xfer zero posn orc fuel i src amount off e0).res ∨
+     ∃ e, (xfer zero posn orc fuel i src amount off e0).res = zero e ∧
+          (xfer zero posn (insertAt orc k .eintr) (fuel + 1) i src amount off e0).res = zero kEINTR) := by
+  intro fuel
+  induction fuel with
+  | zero =>
+    intro i src amount off e0 _ hf
+    cases amount with
+    | zero => simp [xfer]
+    | succ a => simp [xfer] at hf
+  | succ f ih =>
+    intro i src amount off e0 hik hf
+    cases amount with
+    | zero => simp [xfer]
+    | succ a =>
+      by_cases hk : i = k
+      · subst hk
+        -- the inserted EINTR is consumed now; the rest is the original run shifted by one call
+        have hins : insertAt orc i .eintr i = .eintr := by simp [insertAt]
+        have hsh := xfer_shift zero posn orc (insertAt orc i .eintr) (f + 1) i src (a + 1) off kEINTR
+          (fun j hj => by
+            unfold insertAt
+            have h1 : ¬ j + 1 < i := by omega
+            have h2 : ¬ j + 1 = i := by omega
+            simp [h1, h2])
+        have he0 := xfer_e0_first zero posn orc (f + 1) i src (a + 1) off e0 kEINTR
+        have hstep : xfer zero posn (insertAt orc i .eintr) (f + 1 + 1) i src (a + 1) off e0 =
+            (xfer zero posn (insertAt orc i .eintr) (f + 1) (i + 1) src (a + 1) off kEINTR).cons
+              { req := a + 1, off := off } [] := by
+          rw [xfer_succ, hins]; rfl
+        rw [hstep]
+        simp only [cons_moved, cons_rest, cons_res, List.nil_append, hsh.1, hsh.2.1, hsh.2.2.1]
+        refine ⟨he0.1, he0.2.1, ?_⟩
+        rcases he0.2.2 with h | ⟨h1, h2⟩
+        · exact Or.inl h
+        · exact Or.inr ⟨e0, h1, h2⟩
+      · have hlt : i < k := by omega
+        have hins : insertAt orc k .eintr i = orc i := by simp [insertAt, hlt]
+        rw [xfer_succ zero posn orc f i src a off e0] at hf
+        rw [xfer_succ zero posn (insertAt orc k .eintr) (f + 1) i src a off e0,
+          xfer_succ zero posn orc f i src a off e0]
+        simp only [hins] at hf ⊢
+        split
+        · rename_i h
+          rw [h] at hf
+          simp only [cons_res] at hf
+          have := ih (i + 1) src (a + 1) off kEINTR (by omega) hf
+          simp only [cons_moved, cons_rest, cons_res, this.1, this.2.1, List.nil_append, true_and]
+          exact this.2.2
+        · simp
+        · simp
+        · rename_i r h
+          rw [h] at hf
+          simp only [cons_res] at hf
+          have := ih (i + 1) (src.drop (r + 1)) (a + 1 - (r + 1)) (if posn then off + (r + 1) else off) 0 (by omega) hf
+          simp only [cons_moved, cons_rest, cons_res, this.1, this.2.1, true_and]
+          exact this.2.2
+
 end KV.IO
